@@ -27,6 +27,7 @@ type MessageHandler interface {
 }
 
 func (sm *storedMessages) add(msg *IncMessage) {
+	verifYield("add")
 	sm.lock.Lock()
 	defer sm.lock.Unlock()
 
@@ -95,6 +96,7 @@ func (b *Box) startClock() {
 			select {
 			case <-ticker.C:
 				atomic.AddUint64(&b.currentGCEpochNum, 1)
+				verifYield("tick")
 			case <-stopChan:
 				return
 			}
@@ -108,6 +110,7 @@ func (b *Box) Stop() {
 }
 
 func (b *Box) HandleMessage(msg *IncMessage) {
+	verifYield("recv")
 	switch msg.MsgType {
 	case uint8(MsgTypeMPC):
 		b.storeOrForward(msg)
@@ -120,6 +123,7 @@ func (b *Box) HandleMessage(msg *IncMessage) {
 func (b *Box) getOrCreateMessagesByTopic(topic []byte) *storedMessages {
 	b.initialize()
 
+	verifYield("lookup")
 	b.lock.RLock()
 	messages, exists := b.pendingMessages[string(topic)]
 	b.lock.RUnlock()
@@ -128,6 +132,7 @@ func (b *Box) getOrCreateMessagesByTopic(topic []byte) *storedMessages {
 		return messages
 	}
 
+	verifYield("create")
 	b.lock.Lock()
 	defer b.lock.Unlock()
 
@@ -144,12 +149,14 @@ func (b *Box) storeOrForward(msg *IncMessage) {
 	b.initialize()
 
 	if b.hasStartedSending(msg.Topic) {
+		verifYield("forward")
 		b.MessageHandler.HandleMessage(msg)
 		return
 	}
 
 	var tooManyTopicsFromSender bool
 
+	verifYield("limit")
 	b.lock.RLock()
 	if activeTopicsFromSource, exists := b.totalInFlightTopicsBySender[msg.Source]; exists {
 		tooManyTopicsFromSender = len(activeTopicsFromSource) > b.MaxInFlightTopicsBySender
@@ -168,6 +175,7 @@ func (b *Box) storeOrForward(msg *IncMessage) {
 }
 
 func (b *Box) markTopicForSender(msg *IncMessage) {
+	verifYield("mark")
 	b.lock.Lock()
 	defer b.lock.Unlock()
 
@@ -189,6 +197,7 @@ func (b *Box) initialize() {
 func (b *Box) hasStartedSending(topic []byte) bool {
 	b.initialize()
 
+	verifYield("started")
 	b.lock.RLock()
 	defer b.lock.RUnlock()
 
@@ -215,11 +224,13 @@ func (b *Box) maybeGC() {
 
 	defer atomic.StoreUint64(&b.lastGC, now)
 
+	verifYield("gcmark")
 	topics2Delete := b.mark(now, epochsAfterWhichWeGC)
 	b.sweep(topics2Delete)
 }
 
 func (b *Box) sweep(topics2Delete []string) {
+	verifYield("gcsweep")
 	b.lock.Lock()
 	defer b.lock.Unlock()
 
@@ -262,6 +273,7 @@ func (b *Box) Send(msgType uint8, topic []byte, msg []byte, to ...UniversalID) {
 
 	defer b.maybeGC()
 
+	verifYield("send")
 	b.lock.Lock()
 	b.startedSending[string(topic)] = atomic.LoadUint64(&b.currentGCEpochNum)
 	msgs := b.pendingMessages[string(topic)]
@@ -282,5 +294,6 @@ func (b *Box) Send(msgType uint8, topic []byte, msg []byte, to ...UniversalID) {
 
 	b.lock.Unlock()
 
+	verifYield("fwdsend")
 	b.ForwardSend(msgType, topic, msg, to...)
 }
